@@ -24,7 +24,7 @@ out+=["","### 13.4 Hand-written mutations (selftest.py; applied to scratch copie
 "| property | mutation | file | result | signatures raised |","|---|---|---|---|---|"]
 for f in sorted(glob.glob(V+'/selftest/*.json')):
     for m in json.load(open(f)):
-        out.append("| %s | %s | %s | %s | %s |"%(m['property'],m['name'],m['file'],m.get('result'),esc(', '.join(s.replace('sig=','') for s in m.get('sigs',[])[:2]))[:200]))
+        out.append("| %s | %s | %s | %s | %s |"%(m['property'],m['name'],m.get('file') or m.get('patch',''),m.get('result'),esc(', '.join(s.replace('sig=','') for s in m.get('sigs',[])[:2]))[:200]))
 import re
 walls={}
 for f in sorted(glob.glob(V+'/sweeps/*.log')):
